@@ -373,6 +373,9 @@ int main(int argc, char** argv) {
     size_t nw = wide.size(), np = req.size();
     R.space("auto-parameter:" + tg, (uint64_t)nw * 2 * np, [=](uint64_t idx, vf::Case& c) {
       const RI& r = wide[idx / (2 * np)]; double prec = precs[(idx / np) % 2]; double rq = req[idx % np];
+      // "one precision step inside an open bound" must itself be an accepted value for the clause to have a referent: with an open end the
+      // interval has to be wider than two precision steps (the quantifier's 'at least 1e-9 wide' is stated for the default precision 1e-12)
+      if ((!r.il || !r.iu) && !(r.ub - r.lb > 2 * prec)) { c.tag("auto:outside-quantifier(open-interval-not-wider-than-two-precision-steps)"); return; }
       auto k = mk(r, prec);
       // start values: every accepted test point
       for (double s0 : req) {
